@@ -891,6 +891,9 @@ class Executor:
             tv = val_of(v.z)
             if len(tv.items) == n:
                 return tv.items
+        r = self.lib.unpack_hook(self, v, n, st) if hasattr(self.lib, "unpack_hook") else None
+        if r is not None:
+            return r
         raise Unsupported(f"cannot unpack {v!r} into {n}")
 
     def setitem(self, o, k, v, st):
@@ -1901,12 +1904,15 @@ class Executor:
                     st.env.update(saved)
                 return self.coll_from_items(kind, items)
         saved = dict(st.env)
+        # the first iterable does not depend on the bound variables: whatever it creates (e.g. the result of a contracted
+        # callee) is created once, outside the comprehension
+        first_it = self.as_coll(self.ev(gens[0].iter, st), st)
         mark = len(st.pc)
         c0 = next(_fresh)
         conds, bound, nodup_src, ident = [], [], True, None
         try:
             for gi, g in enumerate(gens):
-                it = self.as_coll(self.ev(g.iter, st), st)
+                it = first_it if gi == 0 else self.as_coll(self.ev(g.iter, st), st)
                 if it.mem is None:
                     return Coll(kind, None, None, items=[])
                 if is_tuple_sort(it.esort):
@@ -2099,8 +2105,8 @@ class Executor:
             if v.mem is None:
                 raise Unsupported("empty untyped collection passed to an opaque function")
             return [v.mem]  # order / multiplicity of list arguments is abstracted (stated assumption)
-        if isinstance(v, Obj) and "_E" in v.fields:
-            return [v.fields["_nodes"], v.fields["_E"]]
+        if isinstance(v, Obj) and "@E" in v.fields:
+            return [v.fields["@nodes"], v.fields["@E"]]
         if isinstance(v, NoneV):
             return []
         return [z3_of(v)]
@@ -2485,6 +2491,8 @@ class Executor:
             self.__dict__.pop("_order_added", None)
             self.__dict__.pop("_reach_theories", None)
             self.prefix = f"{contract.qual}[{label}]"
+            self.dynamic_nodes = bool(extra.get("dynamic_nodes")) if extra else False
+            self.__dict__.pop("_dn_ax", None)
             self.ob_counter = {}
             self.loop_counter = 0
             self.number_loops(fdef)
